@@ -121,6 +121,10 @@ Spec == Init /\ [][Next]_vars
 TypeOK == /\ Len(reg) = 80 /\ stage \in {"warm", "ark", "xs", "ys", "mds", "done"}
           /\ Len(xs) <= T /\ Len(ys) <= T
 Conforms == bad = {}                                    \* every element drawn so far is the table's
+\* the round numbers are part of the specification (circomlib / the Poseidon paper's table for BN254, x^5, 128-bit security)
+CircomlibRP == <<56, 57, 56, 60, 60, 63, 64, 63>>
+ParamsOK == /\ Len(K.T) = 8 /\ Len(K.RF) = 8 /\ Len(K.RP) = 8
+            /\ \A i \in 1..8 : K.T[i] = i + 1 /\ K.RF[i] = 8 /\ K.RP[i] = CircomlibRP[i]
 Complete == stage = "done" => /\ Len(K.C[Idx]) = NArk /\ T = Idx + 1       \* and the table has nothing else
 \* the matrix seeds are pairwise distinct and no x_i + y_j vanishes (the entries exist)
 SeedsOK == stage = "done" =>
